@@ -9,14 +9,29 @@ import (
 
 // ActiveSources applies the option semantics of the statements: options that *set* the
 // loader list replace it, options that *add* a source append to it.
-func ActiveSources(p *sdl.Program) []*sdl.Source {
+func ActiveSources(p *sdl.Program) []*sdl.Source { return activeSources(p, false) }
+
+// ActiveSourcesAfterReload includes the late sources (appended in their order).
+func ActiveSourcesAfterReload(p *sdl.Program) []*sdl.Source { return activeSources(p, true) }
+
+func activeSources(p *sdl.Program, late bool) []*sdl.Source {
 	var list []*sdl.Source
 	for _, s := range p.Sources {
+		if s.Late {
+			continue
+		}
 		switch s.Via {
 		case "SetConfigLoader":
 			list = []*sdl.Source{s}
 		default: // AddConfigLoader, SetConfig, AddLoaders
 			list = append(list, s)
+		}
+	}
+	if late {
+		for _, s := range p.Sources {
+			if s.Late {
+				list = append(list, s)
+			}
 		}
 	}
 	return list
@@ -37,7 +52,10 @@ func orderClassOf(s *sdl.Source) (class string, order int) {
 // relative order of equal Order values is left open by the contract; the sequence returned
 // keeps add order among them, and Ambiguous reports whether any two such sources exist.
 func LoaderSequence(p *sdl.Program) (seq []*sdl.Source, ambiguous [][2]string) {
-	act := ActiveSources(p)
+	return loaderSequence(ActiveSources(p))
+}
+
+func loaderSequence(act []*sdl.Source) (seq []*sdl.Source, ambiguous [][2]string) {
 	var pr, or, un []*sdl.Source
 	for _, s := range act {
 		c, _ := orderClassOf(s)
